@@ -304,7 +304,14 @@ func execSim(line string) h.Result {
 		s.fb[k] = v
 	}
 	go s.poller()
-	defer scr.Fini()
+	defer func() {
+		if p := recover(); p != nil {
+			// the screen may have panicked holding its lock: do not wait for Fini, let the driver record the panic
+			go scr.Fini()
+			panic(p)
+		}
+		scr.Fini()
+	}()
 
 	var obs []string
 	lw, lh := 80, 25 // logical size as the application last learnt it
@@ -615,8 +622,17 @@ func (s *simRun) judgeBytes(b []byte, ok bool, evs []string) {
 
 // ---- generation ----
 
-func simVariant() string {
-	v := ""
+// simVariant probes which side of each known defect site the tree under test is on.  A probe that panics (a mutant)
+// counts as "pinned": the case lines then exhibit the panic through the driver's recover.
+func simVariant() (v string) {
+	defer func() {
+		if recover() != nil {
+			for len(v) < 5 {
+				v += "p"
+			}
+		}
+	}()
+	v = ""
 	poll1 := func(scr tcell.SimulationScreen) tcell.Event {
 		ch := make(chan tcell.Event, 1)
 		go func() { ch <- scr.PollEvent() }()
@@ -726,7 +742,7 @@ func textPool(cd *codec) []rune {
 func genSim(g *h.Gen) {
 	r := g.R
 	v := simVariant()
-	n := g.N(1000, 100000)
+	n := g.N(1000, 40000)
 	runePool := []int{'a', 'b', 'Z', ' ', '~', 0xe9, 0x20ac, 0x4e16, 0x754c, 0xff21, 0x2500, 0x2502, 0x25c6, 0xb7, 0x3042, 0x416, 0x1f600, 0, 7, 0x301, 0xa0}
 	combPool := []int{0x301, 0x308, 0x200d, 0x2500, 0x64b, 0xfe0f}
 	for i := 0; i < n; i++ {
